@@ -31,7 +31,7 @@ def units(tier, seed):
     shapes = shapes_h1() + shapes_h2() + (shapes_h3_cover() if tier == "quick" else shapes_h3_all())
     for k, eng in enumerate(shapes):
         for mx in (False, True):
-            descs.append(dict(engines=list(eng), gens=1 + k % 2, maximize=mx, obj=("plateau", "twofunnel", "plateau")[k % 3], Mh=4, seed=s, look_mid_step=bool((k + mx) % 2),
+            descs.append(dict(engines=list(eng), gens=1 + k % 2, maximize=mx, obj=("plateau", "twofunnel", "plateau", "tiny_offset")[k % 4], Mh=4, seed=s, look_mid_step=bool((k + mx) % 2),
                               sprout={"kind": ("simple", "nbc")[(k + mx) % 2], "L": 2}, hib=bool((k // 2) % 2),
                               lsc=[None] + [{"kind": "metaepoch", "m": 1 + k % 2}] * (len(eng) - 1)))
     us = [{"kind": "run", "descs": c} for c in chunks(descs, 12)]
